@@ -69,7 +69,7 @@ def gen_c09_spec(rng: random.Random) -> Dict[str, Any]:
     shared = rng.random() < 0.2
     ops = []
     for i in range(rng.randint(2, 8)):
-        kind = rng.choice(["kiq", "kiq", "labels", "labels", "labels", "task_id", "broker", "labels+task_id"])
+        kind = rng.choice(["kiq", "kiq", "labels", "labels", "labels", "task_id", "broker", "labels+task_id", "reuse", "reuse+labels"])
         op: Dict[str, Any] = {"kind": kind}
         if "labels" in kind:
             op["labels"] = gen_labels(rng, names, rng.randint(1, 3))
@@ -167,13 +167,24 @@ def run_c09(spec: Dict[str, Any]) -> "tuple[List[Violation], Dict[str, Any]]":
         before = copy.deepcopy(task.labels)
         send_info = []
         ids_seen = set()
+        reused: Dict[str, Any] = {}
         for i, op in enumerate(spec["ops"]):
             k = task.kicker()
             over = {kk: dec_label(x) for kk, x in op.get("labels", {}).items()}
+            if op["kind"].startswith("reuse"):
+                # one kicker object used for several sends: every send is its own message (own generated id)
+                if "k" not in reused:
+                    reused["k"] = task.kicker()
+                    reused["over"] = {}
+                k = reused["k"]
+                reused["over"].update(over)
+                over = dict(reused["over"])
             if spec["use_retry"] and spec["retry_labels"] == "op":
                 over.update(retry_extra)
             if over:
                 k = k.with_labels(**over)
+            if spec["use_retry"] and spec["retry_labels"] == "op" and op["kind"].startswith("reuse"):
+                reused["over"].update(retry_extra)
             if op.get("task_id"):
                 k = k.with_task_id(op["task_id"])
             if op["kind"] == "broker":
